@@ -14,6 +14,7 @@ import GM.Proof.RenderWF.Panic
 import GM.Props.Attribute
 import GM.Props.ConvertE2E
 import GM.Props.Consts.Render
+import GM.Props.ConvertE2EAll
 
 namespace GM.Props.C03
 open GM GM.Spec
@@ -148,5 +149,15 @@ theorem store_inv_gives_tree_inv : type_of% @GM.Props.ConvertE2E.store_inv_gives
 theorem consts_rendered_literals_tied : GM.Spec.Consts.allOk GM.Spec.Consts.renderedLiterals = true := GM.Props.Consts.Render.rendered_literals_tied
 /-- (package consts) package constants for which a model has its own definition (incl. bufio's 4096) have the model's value -/
 theorem consts_named_constants_tied : GM.Spec.Consts.allOk GM.Spec.Consts.namedConstants = true := GM.Props.Consts.Render.named_constants_tied
+
+/-- (re-export of `GM.Props.ConvertE2EAll.convert_safe_wellformed_total`) **`convert_safe_wellformed_total`** — C03 END TO END, no hypothesis on the source: for EVERY byte string and Unicode-class
+    assignment, XHTML and HardWraps on or off, in safe mode (`Unsafe` off) `convertCore` answers HTML, and that HTML is accepted by
+    the strict tokenizer, well nested, uses only the renderer's tags and per-tag allowed attribute names, has inert text and
+    attribute values, writes void elements in the style of the output mode (`Spec.safeHtmlOK`), and its token structure is
+    well-formed XML (`Spec.xmlOK`). -/
+theorem convert_safe_wellformed_total : type_of% @GM.Props.ConvertE2EAll.convert_safe_wellformed_total := @GM.Props.ConvertE2EAll.convert_safe_wellformed_total
+
+/-- (re-export of `GM.Props.ConvertE2EAll.convert_safe_grammar_total`) the same output as a word of the inductive grammar `WFHtml` -/
+theorem convert_safe_grammar_total : type_of% @GM.Props.ConvertE2EAll.convert_safe_grammar_total := @GM.Props.ConvertE2EAll.convert_safe_grammar_total
 
 end GM.Props.C03
